@@ -24,6 +24,24 @@
 //     `Sum.inl state'` or `Sum.inr result`, the statements after the loop being part of the iterations that leave
 //     it) and `<name> := GoSem.loop step init`.
 //
+//   - writes through a byte slice (the ENCODER): `b[i] = v`, `copy(b[lo:], v)`, `n := copy(b, v)`,
+//     `binary.BigEndian.PutUint16/32(b[lo:], v)`, a reslice passed to a callee that writes through it
+//     (`putUint16(msg[0:2], v)`), a local window `w := msg[lo:hi]` of a slice the function writes through (reads of w
+//     see the current contents of msg, writes through w go to msg): window := slice, operation, `GoSem.splice` back.
+//     The written slice is one of the function's `outs`.  `pool.GetBuf(n)` needs a parameter with the Go text
+//     "<pool>" (the previous contents of the recycled array).  Strings are their octets; structs of other packages of
+//     the module are resolved (`q *dnsmsg.Question`); `[N]byte{a, b}` is a byte list.
+//   - `map[string]uint16` (`GoSem.Map`): `m != nil`, `v, ok := m[k]`, `m[k] = v`; a map the function inserts into is an out.
+//   - int differences are ℤ (`Int`) values: stored in variables of their own, compared, added, converted
+//     (`uint16(x)`), used as index / slice bound via `GoSem.natOfInt`.
+//   - struct-valued results (`scanner := NewNameScanner(n)`, missing fields of a composite literal get their zero
+//     value), error VALUES kept in struct fields (`s.err = errX`, `return s.err`: a Bool, true = non-nil), named
+//     results that the body never mentions, functions without results (the outs are the result).
+//   - loops: the condition may be a call of a translated function with outs (`for scanner.Scan()`); calls before
+//     the loop make `<name>_init` a `Res` value; a second loop behind the top-level loop or nested in an `if`
+//     (no return inside) becomes `<name>_loop<k>_step` over the variables it assigns (`Sum.inl` next state,
+//     `Sum.inr` final state), with the variables it reads as parameters.
+//
 // A function that leaves the subset becomes an `opaque` constant (only its own theorems break).
 package main
 
@@ -217,6 +235,10 @@ func (p *pkgInfo) tyOf(e ast.Expr) string {
 		if s := boxSliceTy(v); s != "" { // bytes_boxed.go
 			return s
 		}
+	case *ast.MapType:
+		if p.tyOf(v.Key) == "bytes" && p.tyOf(v.Value) == "u16" {
+			return "map" // map[string]uint16
+		}
 	case *ast.SelectorExpr:
 		if id, ok := v.X.(*ast.Ident); ok && id.Name == "pool" && v.Sel.Name == "Buffer" {
 			return "bytes"
@@ -243,6 +265,12 @@ func leanTy(ty string) string {
 		return "Bool"
 	case "int", "u8", "u16", "u32":
 		return "Nat"
+	case "Int": // an int that holds a difference
+		return "Int"
+	case "map":
+		return "GoSem.Map"
+	case "error": // an error VALUE kept in a struct field: true = non-nil
+		return "Bool"
 	}
 	return boxLeanTy(ty) // bytes_boxed.go ("" unless a boxed type)
 }
@@ -300,6 +328,7 @@ type bfunc struct {
 	hasErr  bool
 	outTy   []string // types of sp.Outs
 	failed  bool
+	auxTy   [][2]string // name and Lean type of the auxiliary definitions (inner loops)
 	sigTy   string // Lean type of the definition (known as soon as the parameters are resolved)
 	stepTy  string // Lean type of <name>_step (loops)
 	// bytes_boxed.go
@@ -373,6 +402,12 @@ type btr struct {
 	swK    []func(int) // continuations of the enclosing switch statements (for an unlabelled break)
 	inLoop bool
 	alias  map[string]sliceAlias // local name -> window of a slice variable
+	// inner loops (innerLoop): loops nested in an `if` / behind the function's top-level loop
+	nCond     int
+	nLoop     int
+	noRet     bool
+	auxIn     strings.Builder // auxiliary definitions (inner loops), emitted in front of the function's own
+	loopNames map[*ast.ForStmt]string
 	// bytes_boxed.go: several top-level loops
 	multi  bool
 	aux    *strings.Builder
@@ -542,6 +577,28 @@ func (t *btr) exprTy(e ast.Expr) (string, string) {
 			s, _ := t.exprTy(v.X)
 			return "(!" + s + ")", "bool"
 		}
+		if v.Op == token.XOR { // ^x on a fixed-width unsigned value
+			s, ty := t.exprTy(v.X)
+			if w, ok := widths[ty]; ok {
+				return fmt.Sprintf("(%d - %s)", uint64(1)<<w-1, s), ty
+			}
+		}
+	case *ast.CompositeLit:
+		// [N]byte{a, b, …}
+		if at, ok := v.Type.(*ast.ArrayType); ok && t.pkg.tyOf(at) == "bytes" {
+			var els []string
+			for _, el := range v.Elts {
+				if _, kv := el.(*ast.KeyValueExpr); kv {
+					t.fail("keyed array literal %q", src)
+				}
+				s, ty := t.exprTy(el)
+				if leanTy(ty) != "Nat" && ty != "untyped" {
+					t.fail("element of %q", src)
+				}
+				els = append(els, "UInt8.ofNat "+s)
+			}
+			return "([" + strings.Join(els, ", ") + "] : Bytes)", "bytes"
+		}
 	case *ast.IndexExpr:
 		b, bty := t.exprTy(v.X)
 		i := t.indexExpr(v.Index)
@@ -590,8 +647,27 @@ func (t *btr) exprTy(e ast.Expr) (string, string) {
 			}
 			return fmt.Sprintf("(%s %s %s)", a, map[token.Token]string{token.LAND: "&&", token.LOR: "||"}[v.Op], b), "bool"
 		}
+		// m != nil / m == nil for a map
+		if (v.Op == token.NEQ || v.Op == token.EQL) && text(v.Y) == "nil" {
+			if p, ty := t.path(v.X); p != "" && ty == "map" {
+				s := fmt.Sprintf("(GoSem.Map.isNil %s)", t.read(p, ty, src))
+				if v.Op == token.NEQ {
+					s = "(!" + s + ")"
+				}
+				return s, "bool"
+			}
+		}
 		a, aty := t.exprTy(v.X)
 		b, bty := t.exprTy(v.Y)
+		if (aty == "Int" || bty == "Int") && (v.Op == token.ADD || v.Op == token.SUB) && (aty == "Int" || leanTy(aty) == "Nat" || aty == "untyped") && (bty == "Int" || leanTy(bty) == "Nat" || bty == "untyped") {
+			if aty != "Int" {
+				a = fmt.Sprintf("((%s : Nat) : Int)", a)
+			}
+			if bty != "Int" {
+				b = fmt.Sprintf("((%s : Nat) : Int)", b)
+			}
+			return fmt.Sprintf("(%s %s %s)", a, map[token.Token]string{token.ADD: "+", token.SUB: "-"}[v.Op], b), "Int"
+		}
 		cmp := map[token.Token]string{token.EQL: "=", token.NEQ: "≠", token.LSS: "<", token.LEQ: "≤", token.GTR: ">", token.GEQ: "≥"}
 		if op, ok := cmp[v.Op]; ok {
 			if aty == "Int" || bty == "Int" {
@@ -655,8 +731,10 @@ func (t *btr) convert(s, from, to string) string {
 	wf, okf := widths[from]
 	wt, okt := widths[to]
 	switch {
+	case from == "Int" && okt:
+		return fmt.Sprintf("(Int.toNat (%s %% %s))", s, modOf(to)) // two's complement truncation
 	case from == "Int":
-		t.fail("conversion of an int difference")
+		t.fail("conversion of an int difference to int")
 	case okt && okf && wf <= wt:
 		return s
 	case okt:
@@ -718,6 +796,9 @@ func (t *btr) callExpr(c *ast.CallExpr) (string, string) {
 				}
 				if from == "bytes" || from == "bool" {
 					t.fail("conversion %q", src)
+				}
+				if from == "Int" && to == "int" {
+					return s, "Int"
 				}
 				return t.convert(s, from, to), to
 			}
@@ -803,6 +884,21 @@ func (t *btr) resolveCallW(c *ast.CallExpr) (*bfunc, []string, []string, []func(
 		if bp, bty := t.path(fn.X); bp != "" && strings.HasPrefix(bty, "struct:") {
 			callee = t.reg[bty[7:]+"."+fn.Sel.Name]
 			recvExpr = fn.X
+		} else if bp != "" && leanTy(bty) != "" {
+			// a method of a named non-struct type (Name.pack): the registered method of that name whose receiver has
+			// this underlying type
+			var keys []string
+			for k := range t.reg {
+				keys = append(keys, k)
+			}
+			sort.Strings(keys)
+			for _, k := range keys {
+				if strings.HasSuffix(k, "."+fn.Sel.Name) && t.reg[k].recvTy == bty {
+					callee = t.reg[k]
+					recvExpr = fn.X
+					break
+				}
+			}
 		}
 	}
 	if callee == nil {
@@ -1087,7 +1183,8 @@ func (t *btr) block(ind int, list []ast.Stmt, k func(int)) {
 		t.fail("labelled statement %q is not the function's loop", v.Label.Name)
 	case *ast.ForStmt:
 		if !t.multi {
-			t.fail("unsupported statement %q", text(s))
+			t.innerLoop(ind, v, next) // a loop nested in an `if` / behind the function's single top-level loop
+			return
 		}
 		t.seqLoop(ind, "", v, next) // bytes_boxed.go
 	case *ast.DeclStmt:
@@ -1200,11 +1297,9 @@ func (t *btr) block(ind int, list []ast.Stmt, k func(int)) {
 			// the init statement runs first; a variable it declares would be scoped to the if — refuse shadowing
 			t.depth++
 			defer func() { t.depth-- }()
-			t.block(ind, []ast.Stmt{v.Init}, func(ind int) {
-				c := *v
-				c.Init = nil
-				t.block(ind, append([]ast.Stmt{&c}, rest...), k)
-			})
+			c := *v
+			c.Init = nil
+			t.block(ind, append([]ast.Stmt{v.Init, &c}, rest...), k)
 			return
 		}
 		// static resolution of a test of an error variable whose state is known
@@ -1310,6 +1405,9 @@ func (t *btr) block(ind int, list []ast.Stmt, k func(int)) {
 			t.fail("unsupported %q", text(s))
 		}
 	case *ast.ReturnStmt:
+		if t.noRet {
+			t.fail("return inside an inner loop")
+		}
 		t.ret(ind, v)
 	default:
 		t.fail("unsupported statement %q", text(s))
@@ -1434,8 +1532,69 @@ func (t *btr) assignStmt(ind int, v *ast.AssignStmt, rest []ast.Stmt, k func(int
 			}
 		}
 	}
+	// v, ok := m[key]
+	if len(v.Lhs) == 2 && len(v.Rhs) == 1 && define {
+		if ix, ok := v.Rhs[0].(*ast.IndexExpr); ok {
+			if mp, mty := t.path(ix.X); mp != "" && mty == "map" {
+				key, kty := t.exprTy(ix.Index)
+				if kty != "bytes" {
+					t.fail("map key in %q", text(v))
+				}
+				p1 := t.lhsPath(v.Lhs[0], true, "u16")
+				p2 := t.lhsPath(v.Lhs[1], true, "bool")
+				t.flush(ind)
+				n1, n2 := "_", "_"
+				if p1 != "_" {
+					n1 = t.leanName(p1)
+					t.def[p1] = true
+				}
+				if p2 != "_" {
+					n2 = t.leanName(p2)
+					t.def[p2] = true
+				}
+				t.line(ind, fmt.Sprintf("let (%s, %s) := GoSem.Map.lookup %s %s", n1, n2, t.read(mp, mty, text(ix.X)), key))
+				next(ind)
+				return
+			}
+		}
+	}
 	if len(v.Lhs) != 1 || len(v.Rhs) != 1 {
 		t.fail("unsupported multi-assignment %q", text(v))
+	}
+	// m[key] = v
+	if ix, ok := v.Lhs[0].(*ast.IndexExpr); ok && v.Tok == token.ASSIGN {
+		if mp, mty := t.path(ix.X); mp != "" && mty == "map" {
+			key, kty := t.exprTy(ix.Index)
+			val, vty := t.exprTy(v.Rhs[0])
+			if kty != "bytes" || (vty != "u16" && vty != "untyped") {
+				t.fail("unsupported %q", text(v))
+			}
+			nv := t.hoist(fmt.Sprintf("GoSem.Map.insert %s %s %s", t.read(mp, mty, text(ix.X)), key, val))
+			t.flush(ind)
+			t.assign(ind, mp, mty, nv)
+			next(ind)
+			return
+		}
+	}
+	// s.err = errX / nil (an error kept in a field), x = nil (a byte slice)
+	if lp, lty := t.path(v.Lhs[0]); lp != "" && v.Tok == token.ASSIGN {
+		if lty == "error" && strings.Contains(lp, ".") {
+			switch t.errExprState(v.Rhs[0]) {
+			case "nonnil":
+				t.assign(ind, lp, lty, "true")
+			case "nil":
+				t.assign(ind, lp, lty, "false")
+			default:
+				t.fail("cannot tell whether the error of %q is nil", text(v))
+			}
+			next(ind)
+			return
+		}
+		if lty == "bytes" && text(v.Rhs[0]) == "nil" {
+			t.assign(ind, lp, lty, "([] : Bytes)")
+			next(ind)
+			return
+		}
 	}
 	// b[i] = v: a write through the byte slice b
 	if ix, ok := v.Lhs[0].(*ast.IndexExpr); ok && v.Tok == token.ASSIGN {
@@ -1516,7 +1675,10 @@ func (t *btr) assignStmt(ind int, v *ast.AssignStmt, rest []ast.Stmt, k func(int
 	}
 	val, vty := t.exprTy(v.Rhs[0])
 	if vty == "Int" {
-		t.fail("an int difference is stored in %q", text(v))
+		// a difference of ints is kept as an integer (ℤ) variable; it cannot be stored into a variable that is ℕ
+		if id, ok := v.Lhs[0].(*ast.Ident); !ok || (t.ty[id.Name] != "" && t.ty[id.Name] != "Int") || (v.Tok != token.DEFINE && v.Tok != token.ASSIGN) {
+			t.fail("an int difference is stored in %q", text(v))
+		}
 	}
 	if vty == "untyped" {
 		vty = "int"
@@ -1600,14 +1762,21 @@ func (t *btr) ret(ind int, v *ast.ReturnStmt) {
 	if len(v.Results) != len(f.results) {
 		t.fail("unsupported %q", text(v))
 	}
+	dynErr := ""
 	if f.hasErr {
-		switch t.errExprState(v.Results[len(v.Results)-1]) {
+		last := v.Results[len(v.Results)-1]
+		switch t.errExprState(last) {
 		case "nonnil":
 			t.line(ind, "Res.err")
 			return
 		case "nil":
 		default:
-			t.fail("cannot tell whether the error of %q is nil", text(v))
+			// an error VALUE read from a struct field (`return s.err`)
+			if p, ty := t.path(last); p != "" && ty == "error" && t.def[p] {
+				dynErr = t.leanName(p)
+			} else {
+				t.fail("cannot tell whether the error of %q is nil", text(v))
+			}
 		}
 	}
 	var vals []string
@@ -1638,7 +1807,13 @@ func (t *btr) ret(ind int, v *ast.ReturnStmt) {
 				for _, fl := range fields {
 					fe, ok := m[fl.name]
 					if !ok {
-						t.fail("field %s is not set in %q", fl.name, text(cl.Type))
+						// zero value
+						z := map[string]string{"int": "0", "u8": "0", "u16": "0", "u32": "0", "bool": "false", "bytes": "([] : Bytes)", "error": "false"}[fl.ty]
+						if z == "" {
+							t.fail("field %s is not set in %q", fl.name, text(cl.Type))
+						}
+						vals = append(vals, z)
+						continue
 					}
 					s, sty := t.exprTy(fe)
 					if sty != fl.ty && sty != "untyped" {
@@ -1668,6 +1843,10 @@ func (t *btr) ret(ind int, v *ast.ReturnStmt) {
 		vals = append(vals, s)
 	}
 	t.flush(ind)
+	if dynErr != "" {
+		t.line(ind, "if "+dynErr+" then Res.err else "+wrap(tupleVal(append(t.outVals(text(v)), vals...))))
+		return
+	}
 	t.line(ind, wrap(tupleVal(append(t.outVals(text(v)), vals...))))
 }
 
@@ -1700,13 +1879,109 @@ func (t *btr) assignedIn(list []ast.Stmt) []string {
 		switch v := n.(type) {
 		case *ast.AssignStmt:
 			for _, l := range v.Lhs {
+				if ix, ok := l.(*ast.IndexExpr); ok { // b[i] = v, m[k] = v
+					add(ix.X)
+					continue
+				}
 				add(l)
 			}
 		case *ast.IncDecStmt:
 			add(v.X)
+		case *ast.CallExpr:
+			switch text(v.Fun) {
+			case "copy", "binary.BigEndian.PutUint16", "binary.BigEndian.PutUint32":
+				if len(v.Args) > 0 {
+					e := v.Args[0]
+					if se, ok := e.(*ast.SliceExpr); ok {
+						e = se.X
+					}
+					if a, ok := t.alias[text(e)]; ok {
+						if !seen[a.base] {
+							seen[a.base] = true
+							res = append(res, a.base)
+						}
+					} else {
+						add(e)
+					}
+				}
+			}
+			for _, o := range t.outPaths(v) {
+				if !seen[o] {
+					seen[o] = true
+					res = append(res, o)
+				}
+			}
 		}
 		return true
 	})
+	return res
+}
+
+// outPaths: the caller's paths written by a call of a translated function (no code is emitted).
+func (t *btr) outPaths(c *ast.CallExpr) (res []string) {
+	defer func() {
+		if r := recover(); r != nil {
+			if _, ok := r.(bfail); !ok {
+				panic(r)
+			}
+			res = nil
+		}
+	}()
+	savedPre, savedTmp := t.pre, t.tmp
+	defer func() { t.pre, t.tmp = savedPre, savedTmp }()
+	var callee *bfunc
+	var recvExpr ast.Expr
+	switch fn := c.Fun.(type) {
+	case *ast.Ident:
+		callee = t.reg[fn.Name]
+	case *ast.SelectorExpr:
+		bp, bty := t.path(fn.X)
+		if bp != "" && strings.HasPrefix(bty, "struct:") {
+			callee = t.reg[bty[7:]+"."+fn.Sel.Name]
+			recvExpr = fn.X
+		} else if bp != "" && leanTy(bty) != "" {
+			for k, f := range t.reg {
+				if strings.HasSuffix(k, "."+fn.Sel.Name) && f.recvTy == bty {
+					callee, recvExpr = f, fn.X
+				}
+			}
+		}
+	}
+	if callee == nil || len(c.Args) != len(callee.formals) {
+		return nil
+	}
+	for _, o := range callee.sp.Outs {
+		head, rest := o, ""
+		if i := strings.IndexByte(o, '.'); i >= 0 {
+			head, rest = o[:i], o[i:]
+		}
+		var e ast.Expr
+		if callee.recv != "" && head == callee.recv {
+			e = recvExpr
+		} else {
+			for i, f := range callee.formals {
+				if f == head {
+					e = c.Args[i]
+				}
+			}
+			if e == nil && recvExpr != nil {
+				e, rest = recvExpr, "."+o
+			}
+		}
+		if e == nil {
+			continue
+		}
+		if se, ok := e.(*ast.SliceExpr); ok {
+			e = se.X
+		}
+		if a, ok := t.alias[text(e)]; ok {
+			res = append(res, a.base)
+			continue
+		}
+		if bp, _ := t.path(e); bp != "" {
+			res = append(res, bp+rest)
+		}
+	}
 	return res
 }
 
@@ -1726,6 +2001,140 @@ func (t *btr) arrow() string {
 	return b.String()
 }
 
+// loopBody: the statements of one iteration, the loop condition first (`if !(cond) { break }`); a condition that is
+// a call of a translated function with outs (`for scanner.Scan()`) is bound to a fresh variable first.
+func (t *btr) loopBody(fs *ast.ForStmt) []ast.Stmt {
+	if fs.Cond == nil {
+		return fs.Body.List
+	}
+	var body []ast.Stmt
+	cond := fs.Cond
+	if c, ok := cond.(*ast.CallExpr); ok && len(t.outPaths(c)) > 0 {
+		t.nCond++
+		id := &ast.Ident{Name: fmt.Sprintf("forCond%d", t.nCond)}
+		body = append(body, &ast.AssignStmt{Lhs: []ast.Expr{id}, Tok: token.DEFINE, Rhs: []ast.Expr{c}})
+		cond = id
+	}
+	body = append(body, &ast.IfStmt{Cond: &ast.UnaryExpr{Op: token.NOT, X: &ast.ParenExpr{X: cond}}, Body: &ast.BlockStmt{List: []ast.Stmt{&ast.BranchStmt{Tok: token.BREAK}}}})
+	return append(body, fs.Body.List...)
+}
+
+// innerLoop: a `for` loop that is not the function's top-level loop (it follows it, or is nested in an `if`). Its
+// body may not return from the function. It becomes an auxiliary definition `<name>_loop<k>_step` over the variables
+// it assigns (`Sum.inl`: next iteration, `Sum.inr`: the state with which the loop is left); the variables it only
+// reads are parameters of that definition. At the place of the loop: `let state ← GoSem.loop (step env…) state`.
+func (t *btr) innerLoop(ind int, fs *ast.ForStmt, next func(int)) {
+	hasRet := false
+	ast.Inspect(fs.Body, func(n ast.Node) bool {
+		switch v := n.(type) {
+		case *ast.ReturnStmt:
+			hasRet = true
+		case *ast.BranchStmt:
+			if v.Label != nil {
+				hasRet = true
+			}
+		case *ast.ForStmt, *ast.RangeStmt:
+			hasRet = true
+		}
+		return true
+	})
+	if hasRet {
+		t.fail("a loop other than the function's top-level loop returns, branches to a label or nests a loop")
+	}
+	if fs.Init != nil {
+		t.fail("init statement of an inner loop")
+	}
+	loopStmts := append([]ast.Stmt{}, fs.Body.List...)
+	if fs.Post != nil {
+		loopStmts = append(loopStmts, fs.Post)
+	}
+	if c, ok := fs.Cond.(*ast.CallExpr); ok {
+		loopStmts = append([]ast.Stmt{&ast.ExprStmt{X: c}}, loopStmts...)
+	}
+	var state []string
+	inState := map[string]bool{}
+	for _, p := range t.assignedIn(loopStmts) {
+		if t.def[p] {
+			state = append(state, p)
+			inState[p] = true
+		}
+	}
+	if len(state) == 0 {
+		t.fail("loop without state")
+	}
+	// environment: the defined variables mentioned in the loop that are not part of its state
+	mentioned := map[string]bool{}
+	note := func(n ast.Node) bool {
+		if id, ok := n.(*ast.Ident); ok {
+			mentioned[id.Name] = true
+		}
+		return true
+	}
+	ast.Inspect(&ast.BlockStmt{List: loopStmts}, note)
+	if fs.Cond != nil {
+		ast.Inspect(fs.Cond, note)
+	}
+	var env []string
+	for p, d := range t.def {
+		head := p
+		if i := strings.IndexByte(p, '.'); i >= 0 {
+			head = p[:i]
+		}
+		if d && !inState[p] && mentioned[head] && leanTy(t.ty[p]) != "" {
+			env = append(env, p)
+		}
+	}
+	sort.Strings(env)
+	var stTys, stNames, envSig, envArgs, envTys []string
+	for _, p := range state {
+		stTys = append(stTys, t.ty[p])
+		stNames = append(stNames, t.leanName(p))
+	}
+	for _, p := range env {
+		envSig = append(envSig, fmt.Sprintf("(%s : %s)", t.leanName(p), leanTy(t.ty[p])))
+		envArgs = append(envArgs, t.leanName(p))
+		envTys = append(envTys, leanTy(t.ty[p]))
+	}
+	stTy := tupleTy(stTys)
+	name, known := t.loopNames[fs] // the statements after the top-level loop are emitted once per exit of that loop
+	if !known {
+		t.nLoop++
+		name = fmt.Sprintf("%s_loop%d", t.f.sp.Name, t.nLoop+1)
+	}
+	// body, in its own output buffer and control context
+	sv := t.save()
+	savedOut, savedLoop, savedSwK, savedIn, savedNoRet := t.out, t.loop, t.swK, t.inLoop, t.noRet
+	var body strings.Builder
+	t.out, t.swK, t.noRet = &body, nil, true
+	fin := func(tag string) func(int) {
+		return func(ind int) {
+			var vals []string
+			for _, p := range state {
+				vals = append(vals, t.read(p, "", p))
+			}
+			t.line(ind, "pure ("+tag+" "+tupleVal(vals)+")")
+		}
+	}
+	cont := fin("Sum.inl")
+	withPost := cont
+	if fs.Post != nil {
+		withPost = func(ind int) { t.block(ind, []ast.Stmt{fs.Post}, cont) }
+	}
+	t.loop = &loopCtx{label: "", cont: withPost, brk: fin("Sum.inr")}
+	t.block(1, t.loopBody(fs), withPost)
+	t.out, t.loop, t.swK, t.inLoop, t.noRet = savedOut, savedLoop, savedSwK, savedIn, savedNoRet
+	t.restore(sv)
+	if !known {
+		t.loopNames[fs] = name
+		fmt.Fprintf(&t.auxIn, "/-- translated from %s `%s`: ONE iteration of an inner loop over the state (%s): `Sum.inl` the next state, `Sum.inr` the state with which the loop is left -/\ndef %s_step %s (s : %s) : Res ((%s) ⊕ (%s)) := do\n  let %s := s\n%s\n",
+			t.f.sp.File, t.f.sp.Func, strings.Join(state, ", "), name, strings.Join(envSig, " "), stTy, stTy, stTy, tupleVal(stNames), body.String())
+		t.f.auxTy = append(t.f.auxTy, [2]string{name + "_step", strings.Join(append(envTys, "("+stTy+")"), " → ") + " → Res ((" + stTy + ") ⊕ (" + stTy + "))"})
+	}
+	t.flush(ind)
+	t.line(ind, fmt.Sprintf("let %s ← GoSem.loop (%s_step %s) %s", tupleVal(stNames), name, strings.Join(envArgs, " "), tupleVal(stNames)))
+	next(ind)
+}
+
 func translateBytes(f *bfunc, reg map[string]*bfunc) (res string, err error) {
 	defer func() {
 		if r := recover(); r != nil {
@@ -1736,7 +2145,7 @@ func translateBytes(f *bfunc, reg map[string]*bfunc) (res string, err error) {
 			panic(r)
 		}
 	}()
-	t := &btr{f: f, reg: reg, pkg: f.pkg, ty: map[string]string{}, def: map[string]bool{}, lean: map[string]string{}, errSt: map[string]string{}, out: &strings.Builder{}, alias: map[string]sliceAlias{}}
+	t := &btr{f: f, reg: reg, pkg: f.pkg, ty: map[string]string{}, def: map[string]bool{}, lean: map[string]string{}, errSt: map[string]string{}, out: &strings.Builder{}, alias: map[string]sliceAlias{}, loopNames: map[*ast.ForStmt]string{}}
 	if f.recv != "" {
 		t.ty[f.recv] = f.recvTy
 	}
@@ -1816,7 +2225,7 @@ func translateBytes(f *bfunc, reg map[string]*bfunc) (res string, err error) {
 	}
 	if loopAt < 0 {
 		t.block(1, body, fallOff)
-		return fmt.Sprintf("/-- %s -/\ndef %s%s : Res (%s) := do\n%s", doc, f.sp.Name, t.sig(), rt, t.out.String()), nil
+		return t.auxIn.String() + fmt.Sprintf("/-- %s -/\ndef %s%s : Res (%s) := do\n%s", doc, f.sp.Name, t.sig(), rt, t.out.String()), nil
 	}
 	// ---- loop ----
 	label := ""
@@ -1840,12 +2249,17 @@ func translateBytes(f *bfunc, reg map[string]*bfunc) (res string, err error) {
 			t.fail("panicking expression before the loop")
 		}
 	})
-	if strings.Contains(preOut.String(), "←") || strings.Contains(preOut.String(), "if ") {
+	if strings.Contains(preOut.String(), "if ") {
 		t.fail("the statements before the loop are not plain assignments")
 	}
+	// calls before the loop (`scanner := NewNameScanner(n)`): the initial state is a `Res` value
+	monadicInit := strings.Contains(preOut.String(), "←")
 	loopStmts := append([]ast.Stmt{}, fs.Body.List...)
 	if fs.Post != nil {
 		loopStmts = append(loopStmts, fs.Post)
+	}
+	if c, ok := fs.Cond.(*ast.CallExpr); ok { // `for scanner.Scan()`: the condition writes, too
+		loopStmts = append([]ast.Stmt{&ast.ExprStmt{X: c}}, loopStmts...)
 	}
 	for _, p := range t.assignedIn(loopStmts) {
 		if t.def[p] { // declared before the loop: part of the state
@@ -1863,8 +2277,13 @@ func translateBytes(f *bfunc, reg map[string]*bfunc) (res string, err error) {
 	stTy := tupleTy(stTys)
 	f.stepTy = t.arrow() + "(" + stTy + ") → Res ((" + stTy + ") ⊕ (" + rt + "))"
 	var b strings.Builder
-	fmt.Fprintf(&b, "/-- %s: the loop state (%s) before the first iteration -/\ndef %s_init%s : %s :=\n%s  %s\n\n", doc,
-		strings.Join(state, ", "), f.sp.Name, t.sig(), stTy, preOut.String(), tupleVal(stNames))
+	if monadicInit {
+		fmt.Fprintf(&b, "/-- %s: the loop state (%s) before the first iteration -/\ndef %s_init%s : Res (%s) := do\n%s  pure %s\n\n", doc,
+			strings.Join(state, ", "), f.sp.Name, t.sig(), stTy, preOut.String(), tupleVal(stNames))
+	} else {
+		fmt.Fprintf(&b, "/-- %s: the loop state (%s) before the first iteration -/\ndef %s_init%s : %s :=\n%s  %s\n\n", doc,
+			strings.Join(state, ", "), f.sp.Name, t.sig(), stTy, preOut.String(), tupleVal(stNames))
+	}
 	var stepOut strings.Builder
 	t.out = &stepOut
 	t.inLoop = true
@@ -1889,11 +2308,7 @@ func translateBytes(f *bfunc, reg map[string]*bfunc) (res string, err error) {
 		t.loop = saved
 	}
 	t.loop = &loopCtx{label: label, cont: withPost, brk: brk}
-	stepBody := fs.Body.List
-	if fs.Cond != nil {
-		stepBody = []ast.Stmt{&ast.IfStmt{Cond: &ast.UnaryExpr{Op: token.NOT, X: &ast.ParenExpr{X: fs.Cond}}, Body: &ast.BlockStmt{List: []ast.Stmt{&ast.BranchStmt{Tok: token.BREAK}}}}}
-		stepBody = append(stepBody, fs.Body.List...)
-	}
+	stepBody := t.loopBody(fs)
 	t.block(1, stepBody, withPost)
 	fmt.Fprintf(&b, "/-- %s: ONE iteration of the loop from state (%s): `Sum.inl` the next state, `Sum.inr` the function's result -/\ndef %s_step%s (s : %s) : Res ((%s) ⊕ (%s)) := do\n%s  let %s := s\n%s\n", doc,
 		strings.Join(state, ", "), f.sp.Name, t.sig(), stTy, stTy, rt, preOut.String(), tupleVal(stNames), stepOut.String())
@@ -1902,8 +2317,12 @@ func translateBytes(f *bfunc, reg map[string]*bfunc) (res string, err error) {
 		args = append(args, p.Lean)
 	}
 	a := strings.Join(args, " ")
-	fmt.Fprintf(&b, "/-- %s -/\ndef %s%s : Res (%s) :=\n  GoSem.loop (%s_step %s) (%s_init %s)\n", doc, f.sp.Name, t.sig(), rt, f.sp.Name, a, f.sp.Name, a)
-	return b.String(), nil
+	if monadicInit {
+		fmt.Fprintf(&b, "/-- %s -/\ndef %s%s : Res (%s) := do\n  let s ← %s_init %s\n  GoSem.loop (%s_step %s) s\n", doc, f.sp.Name, t.sig(), rt, f.sp.Name, a, f.sp.Name, a)
+	} else {
+		fmt.Fprintf(&b, "/-- %s -/\ndef %s%s : Res (%s) :=\n  GoSem.loop (%s_step %s) (%s_init %s)\n", doc, f.sp.Name, t.sig(), rt, f.sp.Name, a, f.sp.Name, a)
+	}
+	return t.auxIn.String() + b.String(), nil
 }
 
 // newBfunc resolves the Go declaration of a bytes-mode spec.
@@ -1936,7 +2355,26 @@ func newBfunc(repo string, sp spec) (*bfunc, error) {
 			if n == 0 {
 				n = 1
 			} else {
-				return nil, fmt.Errorf("named results")
+				// named results that the body never mentions (and no bare return) are plain results
+				used := false
+				ast.Inspect(fd.Body, func(x ast.Node) bool {
+					switch v := x.(type) {
+					case *ast.Ident:
+						for _, nm := range r.Names {
+							if v.Name == nm.Name {
+								used = true
+							}
+						}
+					case *ast.ReturnStmt:
+						if len(v.Results) == 0 {
+							used = true
+						}
+					}
+					return true
+				})
+				if used {
+					return nil, fmt.Errorf("named results")
+				}
 			}
 			for i := 0; i < n; i++ {
 				ty := pkg.tyOf(r.Type)
@@ -2017,6 +2455,9 @@ func generateCodec(repo string, specs []spec) string {
 			fmt.Fprintf(&b, "/-- TRANSLATION FAILED: %s -/\nopaque %s : %s\n", msg, bf.sp.Name, sig)
 			if bf.stepTy != "" {
 				fmt.Fprintf(&b, "/-- TRANSLATION FAILED: %s -/\nopaque %s_step : %s\n", msg, bf.sp.Name, bf.stepTy)
+			}
+			for _, a := range bf.auxTy {
+				fmt.Fprintf(&b, "/-- TRANSLATION FAILED: %s -/\nopaque %s : %s\n", msg, a[0], a[1])
 			}
 			b.WriteString("\n")
 			fmt.Fprintf(os.Stderr, "gotolean: %s: %v\n", bf.sp.Name, err)
